@@ -169,6 +169,12 @@ CAL_CHANS = [(5, 1, 1, 1), (4, 0, 1, 3), (6, 2, 0, 0), (3, 1, 2, 2)]
 def calibration(item):
     dec_name, cname, size, dkw, chan, ndef, chunk_seed = item
     den = 8
+    dkw = dict(dkw)
+    # a decoder may be built with a prior that is not the simulation's error
+    # rate (one fixed-prior decoder reused over a sweep): the simulation still
+    # samples at ITS rate, and the exact failure probability is that of
+    # (code, noise at the simulation's rate, this decoder)
+    dec_rate = dkw.pop('_decoder_rate', None)
     code = codes.build(cname, tuple(size))
     n = code.n
     vs = codes.deformation_variants(cname)
@@ -203,10 +209,10 @@ def calibration(item):
             e[q] = d in (1, 2)
             e[n + q] = d in (2, 3)
         stub.e = e
-        dec = DECODERS[dec_name](code, em, p, **dkw)
+        dec = DECODERS[dec_name](code, em, p if dec_rate is None else dec_rate, **dkw)
         succ.append(int(bool(DS.run_once(code, stub, dec, p)['success'])))
     # the real simulation on the stratified grid, in arbitrary chunks
-    dec = DECODERS[dec_name](code, em, p, **dkw)
+    dec = DECODERS[dec_name](code, em, p if dec_rate is None else dec_rate, **dkw)
     sim = DirectSimulation(code, em, dec, p, rng=Stratified(n, den), verbose=False)
     total = den ** n
     rng = np.random.default_rng(chunk_seed)
@@ -219,7 +225,8 @@ def calibration(item):
     return {'kind': 'calibration', 'n': int(n), 'chan': list(chan), 'D': Dt, 'succ': succ,
             'n_fail': int(res['n_fail']), 'n_runs': int(res['n_runs']),
             'events': [], 'code': {'n': 0, 'k': 0, 'stabs': [], 'lx': [], 'lz': []},
-            '_label': f'{dec_name}@{cname}{tuple(size)} chan={chan} noise_def={nd}',
+            '_label': f'{dec_name}@{cname}{tuple(size)} chan={chan} noise_def={nd}'
+                      + (f' decoder built for p={dec_rate}' if dec_rate is not None else ''),
             '_cost': 4 ** n * n}
 
 
@@ -321,7 +328,11 @@ def run(tier):
                     # decoders that read AND rewrite channel tables while decoding
                     ('BeliefPropagationOSDDecoder', 'RotatedPlanar2DCode', (2, 2),
                      {'max_bp_iter': 8, 'osd_order': 0, 'channel_update': True}),
-                    ('MemoryBeliefPropagationDecoder', 'RotatedPlanar2DCode', (2, 2), {'max_bp_iter': 5})]
+                    ('MemoryBeliefPropagationDecoder', 'RotatedPlanar2DCode', (2, 2), {'max_bp_iter': 5}),
+                    # decoders built for another rate than the one simulated
+                    ('MatchingDecoder', 'RotatedPlanar2DCode', (2, 2), {'_decoder_rate': 0.3}),
+                    ('BeliefPropagationOSDDecoder', 'RotatedPlanar2DCode', (2, 2),
+                     {'max_bp_iter': 8, 'osd_order': 0, '_decoder_rate': 0.05})]
     if tier != 'quick':
         cal_subjects += [('MatchingDecoder', 'Planar2DCode', (2, 2), {}),
                          ('BeliefPropagationOSDDecoder', 'Planar2DCode', (2, 2), {'max_bp_iter': 8, 'osd_order': 0})]
